@@ -41,7 +41,8 @@ REQUIRED = ['application_failed_on_a_dispatched_request', 'status_400', 'status_
             'exception_event_seen', 'disconnect_mid_message', 'disconnect_after_response', 'canary_answered', 'residue_scans',
             'weakref_checks', 'responses_parsed_by_reference', 'responses_crosschecked_http_client', 'reject_class_complete',
             'truncation_cases', 'multi_read_cases', 'ref_parser_selftest_checks', 'announced_close_followed_by_close', 'hostile_message_asked_with_HEAD',
-            'message_cut_inside_its_trailer_section']
+            'message_cut_inside_its_trailer_section', 'hostile_message_on_a_connection_that_served_a_request_before',
+            'served_request_was_followed_by_stray_bytes_in_its_read']
 REQUIRED_OBLIGATIONS = ['INCOMPLETE_MESSAGE_WAITS', 'LOOP_SURVIVES', 'ONE_VALID_RESPONSE_PER_READ', 'CLOSE_FOLLOWS_ANNOUNCEMENT', 'REJECTED_NOT_DISPATCHED',
                         'ERROR_STATUS_FOR_REJECTED', 'NO_STATE_AFTER_DISCONNECT', 'WELL_FORMED_DISPATCHED', 'EXCEPTION_ANSWERED_OR_CLOSED',
                         'DISPATCHED_HEADERS_CLEAN', 'BARE_CLOSE_ONLY_FOR_TLS']
@@ -267,7 +268,7 @@ def exit_path(obs):
 
 def method_of(case):
     """How the answer to the hostile message has to be read: a response to HEAD carries no body whatever its Content-Length says."""
-    d = b''.join(case['chunks']).lstrip(b'\r\n')
+    d = b''.join(case['chunks'][case.get('hostile_from', 0):]).lstrip(b'\r\n')
     # (also 'HEAD' followed by some other separator-like byte: a server that splits the request line on any white space has understood HEAD)
     return 'HEAD' if d[:4] == b'HEAD' and len(d) > 4 and not d[4:5].isalnum() else 'GET'
 
@@ -294,8 +295,11 @@ def judge(case, obs):
     complete = obs['delivered'] == len(case['chunks'])
     any_request = False
     statuses = []
-    msg_from = 0      # index of the read with which the message being received began
+    msg_from = case.get('hostile_from', 0)      # index of the read with which the message being received began
+    h0 = case.get('hostile_from', 0)   # reads before this index carried an ordinary request the connection was kept alive after
     for i, st in enumerate(obs['steps']):
+        if i < h0:
+            continue
         any_request = any_request or st['requests'] > 0
         if st['closes'] and not st['written'] and not st['requests']:
             # "or simply closes (TLS handshake on a plain-text port)": closing without a word is reserved for connections whose message
@@ -451,6 +455,10 @@ def evaluate(b, case):
         b.reached('hostile_message_asked_with_HEAD')
     if len(case['chunks']) > 1 and obs['delivered'] > 1:
         b.reached('multi_read_cases')
+    if case.get('hostile_from') and obs['delivered'] > case['hostile_from']:
+        b.reached('hostile_message_on_a_connection_that_served_a_request_before')
+        if case.get('after_served_request'):
+            b.reached('served_request_was_followed_by_stray_bytes_in_its_read')
     if case.get('truncated'):
         b.reached('truncation_cases')
         if case.get('incomplete_wellformed') and b'\r\n0;last\r\nX-' in data:
@@ -708,6 +716,13 @@ def corpus_cases():
         for cut in range(1, len(good), 7):
             cases.append(make_case('well-formed', 'accept', good, good, chunks=[good[:cut], good[cut:]]))
             cases.append(make_case('truncated', 'any', good[:cut], good, chunks=[good[:cut], good[cut:]], disconnect_after=1, truncated=True))
+    # a hostile message on a connection that has already served a request - whose read carried a few bytes more than the request (a stray
+    # CRLF after a body-less request is explicitly allowed for by RFC 7230 3.5) - is a hostile message like any other
+    for tail in (b'', b'\r\n', b'\n', b'\r\n\r\n'):
+        for first in (GOOD, GOOD_POST):
+            for cls, bad in (('nul-in-line', b'\x00\x00GARBAGE\r\n\r\n'), ('bad-header-block', b'GET / HTTP/1.1\r\nHost: h\r\nNoColonHere\r\n\r\n'),
+                             ('sslv2-hello', b'\x80\x2e\x01\x00\x02' + bytes(range(41))), ('bad-version', b'GET / HTTP/9.9\r\nHost: h\r\n\r\n')):
+                cases.append(make_case(cls, 'reject' if cls != 'sslv2-hello' else 'any', bad, bad, chunks=[first + tail, bad], hostile_from=1, after_served_request=len(tail)))
     # field values with bytes >= 0x80, whole and cut at EVERY offset (a read may begin with such a byte)
     cases.append(make_case('well-formed', 'accept', GOOD_OBS, GOOD_OBS))
     for cut in range(1, len(GOOD_OBS)):
@@ -835,6 +850,11 @@ def gen_case(rng):
         extra['truncated'] = True
     if rng.random() < 0.15:
         extra['app'] = 'failing'      # whatever is dispatched makes the application fail: that, too, is answered exactly once
+    elif expect == 'reject' and disc == len(chunks) and not extra.get('truncated') and rng.random() < 0.2:
+        # the connection has served an ordinary request before (whose read carried some stray bytes more, or not)
+        tail = rng.choice([b'', b'\r\n', b'\r\n', b'\n', b'\r\n\r\n'])
+        return make_case(cls, expect, data, orig, chunks=[rng.choice([GOOD, GOOD_POST]) + tail] + chunks, disconnect_after=disc + 1,
+                         hostile_from=1, after_served_request=len(tail))
     return make_case(cls, expect, data, orig if expect != 'accept' else data, chunks=chunks, disconnect_after=disc, **extra)
 
 
